@@ -92,6 +92,12 @@ prop("C04", claimed=True, level="translation_validation", engine="E-SEQ (transla
      note="Bounded families; the dump relies on the public readers (validated against models by C07 / C08 / C09); interleavings of the merge thread other than the canonical 'merge finishes before the next operation' schedule belong to the scheduler scenarios (DESIGN.md).",
      design_ref="3/C04")
 
+prop("C17", claimed=True, level="model_checking", engine="E-SEQ (history engine under IndexSettings::sort_by_field)",
+     technique="bounded-exhaustive enumeration of operation histories and of two-segment sort-value assignments under every sort field type and direction, with a per-segment order invariant and the reference-model content oracle",
+     text="History family: every history of 3 (thorough 4) operations over {adds, deletes by key / id, batch, commit, rollback, merge} from the empty index and from one / two committed multi-document segments, sorted by i64 and string fields (thorough: u64, i64, f64, date, string, bytes) ascending and descending: after every observing step the content equals the reference model, every segment's documents (live and deleted) are in sort order with missing values first / last, and sort values, stored fields and postings stay attached to their document. Merge family: every pair of segments whose documents take sort values from {missing, v1 < v2 < v3} in every insertion order (<= 2 documents each; thorough 3) x every delete subset x type x direction, merged (stacking of disjoint ranges, k-way merge of overlapping ranges, live nulls), plus three-segment shapes.",
+     note="Depth, segment sizes and the value alphabet are bounded; sort values include negatives / pre-1970 dates, duplicates and missing values.",
+     design_ref="3/C17")
+
 ALL = ["C%02d" % i for i in range(1, 21)]
 REASON_TODO = "check not built yet in this revision of /verif (design in DESIGN.md section 3); will be claimed when its engine lands"
 
